@@ -2,6 +2,7 @@
 turned into predicates over one transition of a real Market.  No second matching implementation:
 ledgers / price state machines are *fed with the implementation's own fills*."""
 import heapq
+import numbers
 import math
 
 from .common import Violation
@@ -40,7 +41,7 @@ class C01Mon(Monitor):
             V(f.market_id == w.m.market_id, "C01.pairing", "fill names another market")
             bo, so = buys[f.buy_order_id][0], sells[f.sell_order_id][0]
             V(bo.is_buy and not so.is_buy, "C01.pairing", "fill sides are wrong")
-            V(isinstance(f.volume, int) and f.volume > 0, "C01.volume", "fill volume not positive")
+            V(isinstance(f.volume, numbers.Integral) and f.volume > 0, "C01.volume", "fill volume not positive")
             if bo.kind == LIMIT_ORDER:
                 V(f.price <= bo.price, "C01.buy_limit", "fill price above the buyer's limit",
                   "price=%s buy=%s" % (f.price, fmt(bo)))
@@ -459,6 +460,16 @@ class C08Mon(Monitor):
                 V(len(got) == len(ts) and all(feq(g_, self.tot.get(s_, 0.0)) for g_, s_ in zip(got, ts)), "C08.series_selection",
                   "a per-step series read for a selection of steps does not give those steps' values", "turnover for steps %s" % ts)
             w.wit.inc("series_read_for_step_selections")
+            # the volume-weighted average price up to an explicit earlier step: cumulative turnover / cumulative volume up to it
+            for s_ in (0, t // 2, t - 1):
+                cv = sum(self.vol.get(u, 0) for u in range(0, s_ + 1))
+                ct = sum(self.tot.get(u, 0.0) for u in range(0, s_ + 1))
+                got = m.get_vwap(s_)
+                if cv == 0:
+                    V(isinstance(got, float) and math.isnan(got), "C08.vwap", "VWAP up to a step before the first fill is defined", "get_vwap(%d) = %r" % (s_, got))
+                else:
+                    V(feq(got, ct / cv), "C08.vwap", "VWAP up to an earlier step != cumulative turnover / cumulative volume up to that step",
+                      "get_vwap(%d) = %r expected %r" % (s_, got, ct / cv))
         vw = m.get_vwap()
         if self.cumvol == 0:
             V(isinstance(vw, float) and math.isnan(vw), "C08.vwap", "VWAP defined before any fill")
